@@ -27,6 +27,8 @@ func init() {
 			"behaviour of the three Session.Set implementations for duplicates (C14-C17).",
 		Run: runC05,
 		Mutants: []Mutant{
+			{Name: "setconfig-returns-before-syncing-peers", File: "speaker/bgp_controller.go",
+				Old: "\treturn c.syncPeers(l)\n}\n\nfunc (c *bgpController) SetEventCallback", New: "\tif len(newPeers) == 0 {\n\t\treturn nil\n\t}\n\treturn c.syncPeers(l)\n}\n\nfunc (c *bgpController) SetEventCallback", Expect: "CONFIG-SYNCED"},
 			{Name: "pool-count-carried-across-pools", File: "speaker/main.go",
 				Old: "\tfor pname, p := range pools.ByName {\n\t\tcnt := 0\n", New: "\tcnt := 0\n\tfor pname, p := range pools.ByName {\n", Expect: "POOL-OF-ADDRESSES"},
 			{Name: "empty-peer-node-selector-dropped", File: "internal/config/config.go",
@@ -73,6 +75,8 @@ func init() {
 }
 
 func runC05(p *chk.Prog, r *chk.Report) {
+	// the advertisements applied are those of the pool that owns the addresses now (POOL-CURRENT, shared with C09)
+	c09PoolCurrent(p, r)
 	c05PoolOfAddresses(p, r)
 	c05PeerSelectors(p, r)
 	// what is offered for a pool is what was attached to it (ATTACH, shared with C08)
@@ -84,6 +88,7 @@ func runC05(p *chk.Prog, r *chk.Report) {
 	c05Publish(p, r)
 	c05Republish(p, r)
 	c05Select(p, r)
+	c05ConfigSynced(p, r)
 	c05Cover(p, r)
 	c05Active(p, r)
 	c05ReportKey(p, r)
@@ -623,6 +628,45 @@ func c05Republish(p *chk.Prog, r *chk.Report) {
 		}
 		x.Check("updateAds:publish-then-notify", ua.Pos(), ok, "", "updateAds does not hand the lists actually published to notifyAdsChanged")
 	}
+}
+
+// c05ConfigSynced: a configuration is in force only when the sessions were reconciled with it - peers it adds get a
+// session, peers whose node selectors (or whose node's labels, learnt while the old configuration was in force) now
+// select this node get one, the others lose theirs. Every way SetConfig reports success passes through syncPeers.
+func c05ConfigSynced(p *chk.Prog, r *chk.Report) {
+	x := r.Rule("CONFIG-SYNCED", "B path", "(*bgpController).SetConfig returns nil only behind a call of syncPeers (it returns the result of syncPeers, or an error): no shortcut accepts a configuration without reconciling the sessions with it", 1)
+	f := need(x, p, "speaker", "bgpController", "SetConfig")
+	if f == nil {
+		return
+	}
+	g := f.Graph()
+	isSync := func(n ast.Node) bool { return f.ContainsPat("RECV.syncPeers(ETC)", chk.H("RECV", isRecv(f)))(n) }
+	synced := chk.GEvent(isSync)
+	ok, pos, n := true, f.Pos(), 0
+	for _, rt := range g.Returns() {
+		rs := rt.Node.(*ast.ReturnStmt)
+		if len(rs.Results) != 1 {
+			continue
+		}
+		res := rs.Results[0]
+		n++
+		switch {
+		case f.KnownNonNil(res):
+			continue
+		case f.MatchWith("RECV.syncPeers(ETC)", res, chk.H("RECV", isRecv(f))) != nil:
+			continue
+		case f.IsNilLit(res):
+			if !g.Dominated(rt, synced) {
+				ok, pos = false, rs.Pos()
+			}
+		default:
+			r0 := res
+			if !g.Dominated(rt, chk.GOr(synced, g.GExprNil(false, func(e ast.Expr) bool { return f.SameExpr(e, r0) }))) {
+				ok, pos = false, rs.Pos()
+			}
+		}
+	}
+	x.Check("SetConfig:success-only-after-syncPeers", pos, ok && n > 0, "", "SetConfig can report success without having called syncPeers: sessions the new configuration (or the node's current labels) calls for are not opened, sessions it no longer selects stay up, until some other event happens to run the reconciliation")
 }
 
 func c05Select(p *chk.Prog, r *chk.Report) {
